@@ -184,9 +184,11 @@ void vh_init(int argc, char **argv)
     setvbuf(stdout, NULL, _IOLBF, 1 << 16);
 }
 
-uint64_t *vh_counter_ref(const char *name)
+uint64_t *vh_counter_ref(const char *name_in)
 {
     int i;
+    char name[104];
+    strncpy(name, name_in, sizeof(name) - 1); name[sizeof(name) - 1] = 0;
     for (i = 0; i < VH_MAX_COUNTERS; ++i) {
         if (!vh_sh->counters[i].name[0]) {
             strncpy(vh_sh->counters[i].name, name, sizeof(vh_sh->counters[i].name) - 1);
